@@ -440,7 +440,7 @@ def replay(ctx, data):
         try:
             comps = [({int(k): bytes.fromhex(v["hex"]) for k, v in c[0].items()}, bytes.fromhex(c[1]["hex"]), c[2], c[3])
                      for c in d["comps"]]
-            key = bytes.fromhex(d["key"]["hex"])
+            key = bytes.fromhex(d["key"]["hex"]) if "key" in d else None
             blocks = [(t, bytes.fromhex(v["hex"])) for t, v in d.get("blocks", [])]
             if d.get("mode") == "history":
                 def go(ciph):
